@@ -43,4 +43,12 @@ where
     | [] => []
     | x :: xs => place c s a τ t x :: placeList c s a τ t xs
 
+/-- `rotate_translate_local` with the assertions of the code: `Polygon` and `ShapeGroup` assert `is_valid_orientation(angle)`
+    (shape.py:432-435, 541-544: angle within [-τ, τ]), `Rectangle` and `Circle` accept any angle (the rectangle wraps it).  A
+    group checks once at the top; its members are then placed with the same angle and pass their own checks. -/
+def placeChk (c s a τ : Rat) (t : Pt) : Shape → Res Shape
+  | .poly vs => if validOrientation τ a then .ok (place c s a τ t (.poly vs)) else .error .assert
+  | .group ss => if validOrientation τ a then .ok (place c s a τ t (.group ss)) else .error .assert
+  | sh => .ok (place c s a τ t sh)
+
 end CR.Place
